@@ -21,7 +21,7 @@ ASSUMPTIONS = ["reference model vf/props/C09.py:Model (sorted list by (prio, "
                "insertion seq)) is the meaning of 'stable priority queue'",
                "priorities are ints/floats without NaN"]
 MIN_COUNTERS = {'ops_compared': 1000, 'invariant_evals': 1000,
-                'score_histories': 5}
+                'score_histories': 5, 'atexit_histories': 3}
 
 
 def plan(tier, seed):
@@ -36,6 +36,10 @@ def plan(tier, seed):
         shards.append({'name': f'score{p}', 'mode': 'nrt', 'kind': 'score',
                        'first_case': f, 'n': n, 'secs': secs,
                        'hard_timeout': secs + 120})
+    # exit actions: one shutdown per process
+    for p in range(4 if tier == 'quick' else 16):
+        shards.append({'name': f'atexit{p}', 'mode': 'nrt', 'kind': 'atexit',
+                       'first_case': p, 'n': 1, 'secs': 30, 'hard_timeout': 120})
     return shards
 
 
@@ -276,8 +280,54 @@ def run_shard(spec, acc):
                               {'case': i, 'op_index': k, 'why': why,
                                'ops': [repr(o) for o in ops[:k + 1]]})
         acc.counters['invariant_evals'] = _inv_evals[0]
+    elif kind == 'atexit':
+        run_atexit(spec, acc)
     else:
         run_score(spec, acc, Q)
+
+
+def run_atexit(spec, acc):
+    """The queue through another real user: the library's exit-action queue.
+    Functions are registered with random priorities (ties), some are removed or
+    re-registered, then the library's shutdown runs: they must run once each in
+    (priority, registration order)."""
+    from sc3.base.main import main
+    i = spec['shard']['first_case']
+    rng = case_rng(spec['seed'], 'C09', 'atexit', i)
+    ran = []
+    model = Model()
+    funcs = []
+    n = rng.randint(3, 25)
+    for k in range(n):
+        def f(k=k):
+            ran.append(k)
+        funcs.append(f)
+    ops = []
+    for _ in range(rng.randint(n, 3 * n)):
+        k = rng.randrange(n)
+        if rng.random() < 0.75:
+            prio = rng.choice([0, 0, 1, 5, 250, 499, 10.5, 3])   # below SERVERS (500)
+            main._atexitq.add(prio, funcs[k])
+            model.add(prio, funcs[k])
+            ops.append(('add', prio, k))
+        else:
+            main._atexitq.remove(funcs[k])
+            model.remove(funcs[k])
+            ops.append(('remove', k))
+    exp = [funcs.index(t) for _, t in model.iterate()]
+    try:
+        main._shutdown()
+    except Exception as e:
+        acc.violation(f'C09/atexit-shutdown-raised/{type(e).__name__}',
+                      {'case': i, 'ops': ops, 'tb': short_tb(e)})
+    if ran != exp:
+        acc.violation('C09/atexit-order', {'case': i, 'ops': ops, 'ran': ran,
+                                           'expected': exp})
+    acc.count('atexit_histories')
+    acc.count('atexit_actions_run', len(ran))
+    acc.case(h64(ops), nontrivial=len(set(o[1] for o in ops if o[0] == 'add')) < n)
+    if acc.want_sample():
+        acc.sample({'case': i, 'atexit_ops': ops[:12], 'ran': ran[:12]})
 
 
 def run_score(spec, acc, Q):
